@@ -1,5 +1,5 @@
 (* C06 - the reference parser reads back what render_dir writes (theory-free directives, identifier names). *)
-Require Import V.Lib.Base V.Lib.Dec V.Gen.Consts_C06 V.C06.Model V.C06.RefParse V.C06.Spec V.C06.ProofsLex.
+Require Import V.Lib.Base V.Lib.Dec V.Gen.Consts_C06 V.C06.Model V.C06.RefParse V.C06.Spec V.C06.ProofsLex V.C06.ProofsTerm.
 Local Open Scope Z_scope.
 
 (* ---------- the statement a buffered directive denotes ---------- *)
@@ -50,74 +50,97 @@ Proof.
   now rewrite (digits_ident _ (print_nat_digits a Ha)).
 Qed.
 
-Lemma name_of_good nm a : names_good nm -> 0 <= a -> good_nameb (name_of nm a) = true.
-Proof.
-  intros Hn Ha. unfold name_of. destruct (lookup a nm) as [s|] eqn:E; [now apply (Hn a) | now apply xname_good].
-Qed.
-Lemma lit_name_good nm z : names_good nm -> good_nameb (name_of nm (Z.abs z)) = true.
-Proof. intros Hn. apply name_of_good; [assumption | lia]. Qed.
-
 Lemma print_lit_pos nm a : 0 <= a -> print_lit nm a = name_of nm a.
 Proof. intros Ha. unfold print_lit. destruct (Z.ltb_spec a 0); [lia|]. now rewrite Z.abs_eq. Qed.
 
 (* ---------- element parsers on rendered elements ---------- *)
 Section Elems.
 Variable nm : names_t.
-Hypothesis Hnm : names_good nm.
-Let nu := name_of nm.
+(* what the parser reads for each atom: every spelling in the name table is the canonical text of a readable atom *)
+Variable nu : Z -> patom.
+Hypothesis Hnu : forall a, 0 <= a -> pok (nu a) /\ name_of nm a = show (nu a).
 
-Lemma e_name a l : 0 <= a -> nic l -> p_name (name_of nm a ++ l) = Some (nu a, l).
-Proof. intros. apply p_name_spec; [now apply name_of_good | assumption]. Qed.
-Lemma e_plit a l : 0 <= a -> nic l -> p_name (print_lit nm a ++ l) = Some (nu a, l).
-Proof. intros. rewrite print_lit_pos by assumption. now apply e_name. Qed.
-Lemma e_lit z l : nic l -> p_lit (print_lit nm z ++ l) = Some (map_lit nu (lit_of z), l).
-Proof. intros. apply p_lit_spec; [now apply lit_name_good | assumption]. Qed.
+Lemma nu_abs z : pok (nu (Z.abs z)) /\ name_of nm (Z.abs z) = show (nu (Z.abs z)).
+Proof. apply Hnu. lia. Qed.
 
-Definition okc (l : list Z) : Prop := nic l /\ tok [61] l = None.      (* after a literal without weight *)
+Lemma e_name_gen a l : 0 <= a -> nic l -> (is_plain (nu a) \/ nosop l) -> p_name (name_of nm a ++ l) = Some (nu a, l).
+Proof. intros Ha Hl Hf. destruct (Hnu a Ha) as [Hp ->]. now apply p_name_show. Qed.
+Lemma e_name a l : 0 <= a -> tfol l -> p_name (name_of nm a ++ l) = Some (nu a, l).
+Proof. intros Ha [H1 H2]. apply e_name_gen; auto. Qed.
+Lemma e_lit_gen z l : nic l -> (is_plain (nu (Z.abs z)) \/ nosop l) -> p_lit (print_lit nm z ++ l) = Some (map_lit nu (lit_of z), l).
+Proof.
+  intros Hl Hf. destruct (nu_abs z) as [Hp E]. unfold print_lit. rewrite E, <- app_assoc.
+  rewrite (p_lit_show (z <? 0) (nu (Z.abs z)) l Hp Hl Hf). reflexivity.
+Qed.
+Lemma e_lit z l : tfol l -> p_lit (print_lit nm z ++ l) = Some (map_lit nu (lit_of z), l).
+Proof. intros [H1 H2]. apply e_lit_gen; auto. Qed.
+
+Definition okc (l : list Z) : Prop := tfol l /\ tok [61] l = None.      (* after a literal without weight *)
 Lemma e_clit z l : okc l -> p_wlit (print_lit nm z ++ l) = Some (map_wlit nu (cl_of z), l).
 Proof.
   intros [H1 H2]. unfold p_wlit, bnd. rewrite (e_lit z l H1). unfold opt. rewrite H2. reflexivity.
 Qed.
-Lemma e_wlit x l : nd l -> p_wlit (print_wlit nm x ++ l) = Some (map_wlit nu (wl_of x), l).
+Lemma e_wlit x l : is_plain (nu (Z.abs (fst x))) -> nd l -> p_wlit (print_wlit nm x ++ l) = Some (map_wlit nu (wl_of x), l).
 Proof.
-  intros H. unfold p_wlit, bnd, print_wlit. rewrite <- !app_assoc.
-  rewrite (e_lit (fst x)) by reflexivity. unfold opt.
+  intros Hpl H. unfold p_wlit, bnd, print_wlit. rewrite <- !app_assoc.
+  rewrite (e_lit_gen (fst x)) by (auto; reflexivity). unfold opt.
   rewrite (tok_const [61] s_eq []) by (discriminate || reflexivity). rewrite app_nil_l.
   rewrite (p_int_spec (snd x) l H). reflexivity.
 Qed.
 
-Lemma c_name close a l : 0 <= a -> is_name_start (hd 0 close) = false -> close <> [] -> tok close (name_of nm a ++ l) = None.
-Proof. intros Ha Hc Hne. destruct close as [|c r]; [congruence|]. apply tok_none_name; [now apply name_of_good | exact Hc]. Qed.
-Lemma c_lit close z l : is_name_start (hd 0 close) = false -> close <> [] -> tok close (print_lit nm z ++ l) = None.
-Proof. intros Hc Hne. destruct close as [|c r]; [congruence|]. apply tok_none_lit; [now apply lit_name_good | exact Hc]. Qed.
-Lemma c_wlit close x l : is_name_start (hd 0 close) = false -> close <> [] -> tok close (print_wlit nm x ++ l) = None.
+Lemma name_hd a : 0 <= a -> exists c r, name_of nm a = c :: r /\ (is_name_start c = true \/ c = 38).
+Proof. intros Ha. destruct (Hnu a Ha) as [Hp ->]. now apply show_hd. Qed.
+Lemma name_nows c : (is_name_start c = true \/ c = 38) -> is_ws c = false.
+Proof. intros [H| ->]; [now apply name_start_nows | reflexivity]. Qed.
+
+Definition closer (close : list Z) : Prop := is_name_start (hd 0 close) = false /\ hd 0 close <> 38 /\ close <> [].
+Lemma c_name close a l : 0 <= a -> closer close -> tok close (name_of nm a ++ l) = None.
+Proof.
+  intros Ha (Hc & H38 & Hne). destruct close as [|c r]; [congruence|]. destruct (name_hd a Ha) as (c0 & r0 & -> & Hk).
+  cbn [app]. apply tok_none_hd; [now apply name_nows|]. cbn [hd] in *. destruct Hk as [Hk| ->]; congruence.
+Qed.
+Lemma c_lit close z l : closer close -> tok close (print_lit nm z ++ l) = None.
+Proof.
+  intros Hcl. unfold print_lit. destruct (z <? 0).
+  - destruct Hcl as (Hc & H38 & Hne). destruct close as [|c r]; [congruence|]. rewrite <- app_assoc.
+    change s_not with [110; 111; 116; 32]. cbn [app]. apply tok_none_hd; [reflexivity|]. cbn [hd] in Hc. intro E. subst c. discriminate.
+  - cbn [app]. apply c_name; [lia | assumption].
+Qed.
+Lemma c_wlit close x l : closer close -> tok close (print_wlit nm x ++ l) = None.
 Proof. intros. unfold print_wlit. rewrite <- app_assoc. now apply c_lit. Qed.
+
+Lemma print_lit_ne z : print_lit nm z <> [].
+Proof.
+  unfold print_lit. destruct (z <? 0); [discriminate|]. cbn [app]. destruct (name_hd (Z.abs z) ltac:(lia)) as (c & r & -> & _). discriminate.
+Qed.
+Lemma name_ne a : 0 <= a -> name_of nm a <> [].
+Proof. intros Ha. destruct (name_hd a Ha) as (c & r & -> & _). discriminate. Qed.
 
 (* ---------- lists ---------- *)
 (* literals separated by ", " *)
-Lemma l_lits1 c rest : c <> [] -> nic rest -> tok t_comma rest = None ->
+Lemma l_lits1 c rest : c <> [] -> tfol rest -> tok t_comma rest = None ->
   p_list1 p_lit t_comma (sep_list (print_lit nm) s_list_sep c ++ rest) = Some (map (map_lit nu) (map lit_of c), rest).
 Proof.
   intros Hc Hr He. rewrite map_map.
-  apply (p_list1_spec p_lit (print_lit nm) (fun z => map_lit nu (lit_of z)) t_comma [32] nic); try assumption; try discriminate; try reflexivity.
-  - intros x. pose proof (print_lit_nows nm x [] (lit_name_good nm x Hnm)) as H. rewrite app_nil_r in H.
-    intro E. rewrite E in H. exact H.
+  apply (p_list1_spec p_lit (print_lit nm) (fun z => map_lit nu (lit_of z)) t_comma [32] tfol); try assumption; try discriminate; try reflexivity.
+  - intros l. split; reflexivity.
+  - exact print_lit_ne.
   - intros x _ l Hl. now apply e_lit.
 Qed.
 
-Lemma l_lits0 close c rest : is_name_start (hd 0 close) = false -> close <> [] ->
-  nic rest -> tok t_comma rest = None -> (exists r, tok close rest = Some (tt, r)) ->
+Lemma l_lits0 close c rest : closer close ->
+  tfol rest -> tok t_comma rest = None -> (exists r, tok close rest = Some (tt, r)) ->
   p_list0 p_lit t_comma close (sep_list (print_lit nm) s_list_sep c ++ rest) = Some (map (map_lit nu) (map lit_of c), rest).
 Proof.
-  intros Hc Hne Hr He Hcl. rewrite map_map.
-  apply (p_list0_spec p_lit (print_lit nm) (fun z => map_lit nu (lit_of z)) t_comma [32] nic); try assumption; try discriminate; try reflexivity.
-  - intros x. pose proof (print_lit_nows nm x [] (lit_name_good nm x Hnm)) as H. rewrite app_nil_r in H.
-    intro E. rewrite E in H. exact H.
+  intros Hc Hr He Hcl. rewrite map_map.
+  apply (p_list0_spec p_lit (print_lit nm) (fun z => map_lit nu (lit_of z)) t_comma [32] tfol); try assumption; try discriminate; try reflexivity.
+  - intros l. split; reflexivity.
+  - exact print_lit_ne.
   - intros x _ l Hl. now apply e_lit.
   - intros x _ l. now apply c_lit.
 Qed.
 
-Lemma l_cond c rest : nic rest -> tok t_comma rest = None -> tok t_colon rest = None ->
+Lemma l_cond c rest : tfol rest -> tok t_comma rest = None -> tok t_colon rest = None ->
   p_cond (pre_list (print_lit nm) s_cond s_list_sep c ++ rest) = Some (map (map_lit nu) (map lit_of c), rest).
 Proof.
   intros Hr He Hcol. unfold p_cond, opt, pre_list. destruct c as [|x c].
@@ -127,47 +150,59 @@ Proof.
     change (p_sep1 (S (S (length ?l))) p_lit t_comma (32 :: ?l)) with (p_sep1 (S (S (length l))) p_lit t_comma ([32] ++ l)).
     rewrite (p_sep1_pad p_lit t_comma [32] p_lit_blank).
     rewrite map_map.
-    apply (p_sep1_spec p_lit (print_lit nm) (fun z => map_lit nu (lit_of z)) t_comma [32] nic); try assumption; try discriminate; try reflexivity.
+    apply (p_sep1_spec p_lit (print_lit nm) (fun z => map_lit nu (lit_of z)) t_comma [32] tfol); try assumption; try discriminate; try reflexivity.
+    + intros l. split; reflexivity.
     + intros z _ l Hl. now apply e_lit.
     + rewrite app_length.
-      assert (Hfne : forall z, print_lit nm z <> []).
-      { intros z. pose proof (print_lit_nows nm z [] (lit_name_good nm z Hnm)) as H. rewrite app_nil_r in H.
-        intro E. rewrite E in H. exact H. }
-      pose proof (sep_list_len (print_lit nm) s_list_sep Hfne (x :: c)) as HL. simpl in *. lia.
+      pose proof (sep_list_len (print_lit nm) s_list_sep print_lit_ne (x :: c)) as HL. simpl in *. lia.
 Qed.
 
 (* names separated by sep (one char) with optional blank *)
-Lemma l_names0 (sepc : Z) pad close h rest : is_ws sepc = false -> is_follow sepc = true ->
+Lemma l_names1 (sepc : Z) pad h rest : is_ws sepc = false -> is_follow sepc = true -> is_sop sepc = false ->
+  (pad = [] \/ pad = [32]) -> nonneg h -> h <> [] ->
+  tfol rest -> tok [sepc] rest = None ->
+  p_list1 p_name [sepc] (sep_list (name_of nm) ([sepc] ++ pad) h ++ rest) = Some (map nu h, rest).
+Proof.
+  intros Hws Hid Hsop Hpad Hh Hne Hr He.
+  assert (Hin : forall x, In x h -> 0 <= x) by (unfold nonneg in Hh; now rewrite Forall_forall in Hh).
+  unfold p_list1.
+  apply (p_sep1_spec p_name (name_of nm) nu [sepc] pad tfol); try assumption; try discriminate.
+  - destruct Hpad as [-> | ->]; intros l; [reflexivity | apply p_name_blank].
+  - intros l. split; [exact Hid|]. unfold nosop. cbn [app skipws]. rewrite Hws. exact Hsop.
+  - intros z Hz l Hl. apply e_name; [now apply Hin | assumption].
+  - rewrite app_length.
+    assert (HL : (length h <= length (sep_list (name_of nm) ([sepc] ++ pad) h))%nat).
+    { clear - Hin Hnu. induction h as [|y q IH]; [simpl; lia|]. destruct q as [|z q'].
+      - simpl. pose proof (name_ne y (Hin y (or_introl eq_refl))). destruct (name_of nm y); [congruence | simpl; lia].
+      - rewrite sep_list_cons, !app_length. pose proof (name_ne y (Hin y (or_introl eq_refl))).
+        specialize (IH (fun w Hw => Hin w (or_intror Hw))). destruct (name_of nm y); [congruence|]. simpl in *. lia. }
+    lia.
+Qed.
+
+Lemma l_names0 (sepc : Z) pad close h rest : is_ws sepc = false -> is_follow sepc = true -> is_sop sepc = false ->
   (pad = [] \/ pad = [32]) -> nonneg h ->
-  is_name_start (hd 0 close) = false -> close <> [] ->
-  nic rest -> tok [sepc] rest = None -> (exists r, tok close rest = Some (tt, r)) ->
+  closer close ->
+  tfol rest -> tok [sepc] rest = None -> (exists r, tok close rest = Some (tt, r)) ->
   p_list0 p_name [sepc] close (sep_list (name_of nm) ([sepc] ++ pad) h ++ rest) = Some (map nu h, rest).
 Proof.
-  intros Hws Hid Hpad Hh Hc Hne Hr He Hcl.
-  apply (p_list0_spec p_name (name_of nm) nu [sepc] pad nic); try assumption; try discriminate.
-  - destruct Hpad as [-> | ->]; intros l; [reflexivity | apply p_name_blank].
-  - intros l. exact Hid.
-  - intros x. destruct (lookup x nm) eqn:E.
-    + unfold name_of. rewrite E. pose proof (Hnm x l E) as G. destruct l; [discriminate G | discriminate].
-    + unfold name_of. rewrite E. discriminate.
-  - intros x Hx l Hl. apply e_name; [|assumption]. unfold nonneg in Hh. rewrite Forall_forall in Hh. now apply Hh.
-  - intros x Hx l. apply c_name; try assumption. unfold nonneg in Hh. rewrite Forall_forall in Hh. now apply Hh.
+  intros Hws Hid Hsop Hpad Hh Hc Hr He Hcl.
+  assert (Hin : forall x, In x h -> 0 <= x) by (unfold nonneg in Hh; now rewrite Forall_forall in Hh).
+  unfold p_list0. destruct h as [|x h].
+  - cbn [sep_list app map]. destruct Hcl as [r ->]. reflexivity.
+  - assert (E : tok close (sep_list (name_of nm) ([sepc] ++ pad) (x :: h) ++ rest) = None).
+    { destruct h as [|y q]; [cbn [sep_list] | rewrite sep_list_cons, <- !app_assoc]; apply c_name; try assumption; apply Hin; now left. }
+    rewrite E. apply l_names1; try assumption. discriminate.
 Qed.
 
-Lemma print_lit_ne z : print_lit nm z <> [].
-Proof.
-  pose proof (print_lit_nows nm z [] (lit_name_good nm z Hnm)) as H. rewrite app_nil_r in H.
-  intro E. rewrite E in H. exact H.
-Qed.
-
-Lemma l_wlits0 l rest : nd rest -> tok t_semi rest = None -> (exists r, tok t_rbrace rest = Some (tt, r)) ->
+Lemma l_wlits0 l rest : (forall x, In x l -> is_plain (nu (Z.abs (fst x)))) ->
+  nd rest -> tok t_semi rest = None -> (exists r, tok t_rbrace rest = Some (tt, r)) ->
   p_list0 p_wlit t_semi t_rbrace (sep_list (print_wlit nm) s_agg_sep l ++ rest) = Some (map (map_wlit nu) (map wl_of l), rest).
 Proof.
-  intros Hr He Hcl. rewrite map_map.
+  intros Hpl Hr He Hcl. rewrite map_map.
   apply (p_list0_spec p_wlit (print_wlit nm) (fun x => map_wlit nu (wl_of x)) t_semi [32] nd); try assumption; try discriminate; try reflexivity.
   - intros x E. unfold print_wlit in E. apply app_eq_nil in E. destruct E as [E _]. now apply print_lit_ne in E.
-  - intros x _ l0 Hl. now apply e_wlit.
-  - intros x _ l0. now apply c_wlit.
+  - intros x Hx l0 Hl. apply e_wlit; [now apply Hpl | assumption].
+  - intros x _ l0. apply c_wlit. repeat split; discriminate.
 Qed.
 
 Lemma l_clits0 l rest : okc rest -> tok t_semi rest = None -> (exists r, tok t_rbrace rest = Some (tt, r)) ->
@@ -175,25 +210,33 @@ Lemma l_clits0 l rest : okc rest -> tok t_semi rest = None -> (exists r, tok t_r
 Proof.
   intros Hr He Hcl. rewrite map_map.
   apply (p_list0_spec p_wlit (print_lit nm) (fun x => map_wlit nu (cl_of x)) t_semi [32] okc); try assumption; try discriminate; try reflexivity.
-  - intros l0. split; reflexivity.
+  - intros l0. repeat split.
   - exact print_lit_ne.
   - intros x _ l0 Hl. now apply e_clit.
-  - intros x _ l0. now apply c_lit.
+  - intros x _ l0. apply c_lit. repeat split; discriminate.
 Qed.
 
 (* ---------- directives ---------- *)
 Ltac tk_ok s c := erewrite (tok_const s c); [ | discriminate | reflexivity ].
 Ltac tk_no s c := rewrite (tok_none s c) by reflexivity.
 Ltac side := first [ reflexivity | assumption | discriminate | (now right) | (now left) | (now apply tok_none)
-                   | (eexists; apply tok_const; [discriminate | reflexivity]) | (split; reflexivity) ].
+                   | (eexists; apply tok_const; [discriminate | reflexivity]) | (split; reflexivity)
+                   | (repeat split; first [reflexivity | discriminate]) ].
 
-Lemma d_min l p rest :
+Definition dir_plain (d : dir) : Prop := forall a, In a (wlits d) -> is_plain (nu a).
+Definition body_plain (b : wbody) : Prop := match b with WSum _ l => forall x, In x l -> is_plain (nu (Z.abs (fst x))) | _ => True end.
+Lemma dir_plain_min l p : dir_plain (DMin l p) -> forall x, In x l -> is_plain (nu (Z.abs (fst x))).
+Proof. intros H x Hx. apply H. cbn [wlits]. apply in_map_iff. now exists x. Qed.
+Lemma dir_plain_rule ht h b : dir_plain (DRule ht h b) -> body_plain b.
+Proof. intros H. destruct b; cbn [body_plain]; try exact I. intros x Hx. apply H. cbn [wlits]. apply in_map_iff. now exists x. Qed.
+
+Lemma d_min l p rest : (forall x, In x l -> is_plain (nu (Z.abs (fst x)))) ->
   p_stmt (render_dir nm (DMin l p) ++ rest) = Some (map_stmt nu (stmt_of_dir (DMin l p)), s_nl ++ rest).
 Proof.
-  cbn [render_dir stmt_of_dir map_stmt]. rewrite <- !app_assoc. unfold p_stmt.
+  intros Hpl. cbn [render_dir stmt_of_dir map_stmt]. rewrite <- !app_assoc. unfold p_stmt.
   tk_ok t_minimize s_minimize. unfold bnd.
   tk_ok t_lbrace [123]. rewrite app_nil_l.
-  rewrite l_wlits0 by side.
+  rewrite l_wlits0 by (first [assumption | side]).
   tk_ok t_rbrace s_min_close. unfold opt. tk_ok t_at [64]. rewrite app_nil_l.
   rewrite p_int_spec by reflexivity.
   tk_ok t_dot s_dot. reflexivity.
@@ -229,10 +272,10 @@ Lemma d_show s c rest : good_nameb s = true ->
 Proof.
   intros Hs. cbn [render_dir stmt_of_dir map_stmt]. rewrite <- !app_assoc. unfold p_stmt.
   tk_no t_minimize s_show. tk_no t_project s_show. tk_ok t_show s_show. unfold bnd.
-  change ([32] ++ ?x) with (32 :: x). rewrite p_name_blank.
+  change ([32] ++ ?x) with (32 :: x). rewrite p_name0_blank.
   assert (Hn : nic (pre_list (print_lit nm) s_cond s_list_sep c ++ s_dot ++ s_nl ++ rest)).
   { destruct c; reflexivity. }
-  rewrite (p_name_spec s _ Hs Hn).
+  rewrite (p_name0_spec s _ Hs Hn).
   rewrite l_cond by side.
   tk_ok t_dot s_dot. reflexivity.
 Qed.
@@ -256,8 +299,8 @@ Proof.
   intros Ha Hv Hrest. cbn [render_dir stmt_of_dir map_stmt]. rewrite <- !app_assoc. unfold p_stmt.
   tk_no t_minimize s_external. tk_no t_project s_external. tk_no t_show s_external. tk_ok t_external s_external. unfold bnd.
   change ([32] ++ ?x) with (32 :: x). rewrite p_name_blank.
-  assert (Hn : nic (ext_term v ++ s_nl ++ rest)).
-  { unfold ext_term. destruct (v =? 0); [reflexivity|]. destruct (v =? 1); [reflexivity|]. destruct (v =? 3); reflexivity. }
+  assert (Hn : tfol (ext_term v ++ s_nl ++ rest)).
+  { unfold ext_term. destruct (v =? 0); [split; reflexivity|]. destruct (v =? 1); [split; reflexivity|]. destruct (v =? 3); split; reflexivity. }
   rewrite (e_name a _ Ha Hn). unfold ext_term, opt.
   assert (Hc : v = 0 \/ v = 1 \/ v = 2 \/ v = 3) by lia.
   destruct Hc as [-> | [-> | [-> | ->]]]; cbn [Z.eqb Pos.eqb].
@@ -281,7 +324,7 @@ Proof.
   tk_no t_minimize s_heuristic. tk_no t_project s_heuristic. tk_no t_show s_heuristic. tk_no t_external s_heuristic.
   tk_no t_assume s_heuristic. tk_ok t_heuristic s_heuristic. unfold bnd.
   change ([32] ++ ?x) with (32 :: x). rewrite p_name_blank.
-  rewrite (e_name a) by (try assumption; destruct c; reflexivity).
+  rewrite (e_name a) by (try assumption; destruct c; split; reflexivity).
   rewrite l_cond by side.
   tk_ok t_dot s_heu_open. tk_ok t_lbrack [32; 91]. rewrite app_nil_l.
   rewrite p_int_spec by (destruct (prio =? 0); reflexivity).
@@ -309,14 +352,15 @@ Lemma print_lit_hd z l : exists c r, print_lit nm z ++ l = c :: r /\ is_ws c = f
 Proof.
   unfold print_lit. destruct (z <? 0).
   - exists 110. eexists. split; [reflexivity|]. split; reflexivity.
-  - destruct (good_name_hd _ (lit_name_good nm z Hnm)) as (c & a & E & Hc). rewrite E. cbn [app].
-    exists c. eexists. split; [reflexivity|]. unfold is_name_start, is_lower, is_ws, is_digit in *. lia.
+  - destruct (name_hd (Z.abs z) ltac:(lia)) as (c & a & E & Hc). rewrite E. cbn [app].
+    exists c. eexists. split; [reflexivity|]. destruct Hc as [Hc| ->]; [|split; reflexivity].
+    unfold is_name_start, is_lower, is_ws, is_digit in *. lia.
 Qed.
 
-Lemma p_body_spec b R :
+Lemma p_body_spec b R : body_plain b ->
   p_body (render_body nm [] b ++ s_dot ++ R) = Some (map_body nu (body_of b), s_dot ++ R).
 Proof.
-  destruct b as [l | bd l | bd l]; cbn [render_body body_of map_body].
+  intros Hpl. destruct b as [l | bd l | bd l]; cbn [render_body body_of map_body].
   - unfold pre_list. destruct l as [|x l].
     + reflexivity.
     + rewrite app_nil_l.
@@ -329,35 +373,35 @@ Proof.
     unfold p_body. rewrite E. cbn [app skipws]. rewrite Hws. cbv zeta. rewrite Hd.
     change (c :: r ++ ?x) with ((c :: r) ++ x). rewrite <- E. unfold bnd.
     rewrite p_int_spec by reflexivity. tk_ok t_lbrace s_agg_open. rewrite app_nil_l.
-    rewrite l_clits0 by (first [side | (split; [reflexivity | now apply tok_none])]).
+    rewrite l_clits0 by (first [side | (split; [split; reflexivity | now apply tok_none])]).
     tk_ok t_rbrace s_agg_close. reflexivity.
   - rewrite app_nil_l, <- !app_assoc. destruct (print_Z_hd bd) as (c & r & E & Hws & _ & Hd).
     unfold p_body. rewrite E. cbn [app skipws]. rewrite Hws. cbv zeta. rewrite Hd.
     change (c :: r ++ ?x) with ((c :: r) ++ x). rewrite <- E. unfold bnd.
     rewrite p_int_spec by reflexivity. tk_ok t_lbrace s_agg_open. rewrite app_nil_l.
-    rewrite l_wlits0 by side.
+    rewrite l_wlits0 by (first [exact Hpl | side]).
     tk_ok t_rbrace s_agg_close. reflexivity.
 Qed.
 
-Lemma rule_tail ch h pre b R : (pre = s_if \/ (pre = [] /\ False)) ->
+Lemma rule_tail ch h pre b R : (pre = s_if \/ (pre = [] /\ False)) -> body_plain b ->
   p_rule_tail ch h (render_body nm s_if b ++ s_dot ++ R) = Some (SRule ch h (map_body nu (body_of b)), R).
 Proof.
-  intros _. unfold p_rule_tail, bnd, opt.
+  intros _ Hpl. unfold p_rule_tail, bnd, opt.
   destruct b as [[|x l]| bd l | bd l].
   - cbn [render_body pre_list app]. tk_no t_if s_dot. tk_ok t_dot s_dot. reflexivity.
   - rewrite render_body_pre by discriminate. rewrite <- !app_assoc. tk_ok t_if s_if.
-    change ([32] ++ ?x) with (32 :: x). rewrite p_body_blank, p_body_spec. tk_ok t_dot s_dot. reflexivity.
+    change ([32] ++ ?x) with (32 :: x). rewrite p_body_blank, p_body_spec by exact Hpl. tk_ok t_dot s_dot. reflexivity.
   - rewrite render_body_pre by discriminate. rewrite <- !app_assoc. tk_ok t_if s_if.
-    change ([32] ++ ?x) with (32 :: x). rewrite p_body_blank, p_body_spec. tk_ok t_dot s_dot. reflexivity.
+    change ([32] ++ ?x) with (32 :: x). rewrite p_body_blank, p_body_spec by exact Hpl. tk_ok t_dot s_dot. reflexivity.
   - rewrite render_body_pre by discriminate. rewrite <- !app_assoc. tk_ok t_if s_if.
-    change ([32] ++ ?x) with (32 :: x). rewrite p_body_blank, p_body_spec. tk_ok t_dot s_dot. reflexivity.
+    change ([32] ++ ?x) with (32 :: x). rewrite p_body_blank, p_body_spec by exact Hpl. tk_ok t_dot s_dot. reflexivity.
 Qed.
 
-Lemma rule_tail_nohead b R :
+Lemma rule_tail_nohead b R : body_plain b ->
   p_rule_tail false [] (s_if_nohead ++ render_body nm [] b ++ s_dot ++ R) = Some (SRule false [] (map_body nu (body_of b)), R).
 Proof.
-  unfold p_rule_tail, bnd, opt. tk_ok t_if s_if_nohead.
-  change ([32] ++ ?x) with (32 :: x). rewrite p_body_blank, p_body_spec. tk_ok t_dot s_dot. reflexivity.
+  intros Hpl. unfold p_rule_tail, bnd, opt. tk_ok t_if s_if_nohead.
+  change ([32] ++ ?x) with (32 :: x). rewrite p_body_blank, p_body_spec by exact Hpl. tk_ok t_dot s_dot. reflexivity.
 Qed.
 
 Lemma body_pre_eq ht h : body_pre ht h = if negb (ht =? 0) || negb (is_nil h) then s_if else [].
@@ -371,13 +415,13 @@ Proof.
   - destruct h as [|x h]; cbn [is_nil negb].
     + now apply tok_none.
     + rewrite app_nil_l, app_nil_r. inversion Hh; subst.
-      destruct h as [|y r]; [cbn [sep_list] | rewrite sep_list_cons, <- !app_assoc]; apply c_name; try assumption; try reflexivity; discriminate.
+      destruct h as [|y r]; [cbn [sep_list] | rewrite sep_list_cons, <- !app_assoc]; apply c_name; try assumption; repeat split; discriminate.
 Qed.
 
-Lemma d_rule ht h b rest : nonneg h ->
+Lemma d_rule ht h b rest : nonneg h -> body_plain b ->
   p_stmt (render_dir nm (DRule ht h b) ++ rest) = Some (map_stmt nu (stmt_of_dir (DRule ht h b)), s_nl ++ rest).
 Proof.
-  intros Hh. cbn [render_dir stmt_of_dir map_stmt]. rewrite <- !app_assoc. unfold p_stmt.
+  intros Hh Hpl. cbn [render_dir stmt_of_dir map_stmt]. rewrite <- !app_assoc. unfold p_stmt.
   unfold t_minimize, t_project, t_show, t_external, t_assume, t_heuristic, t_edge.
   rewrite !rule_not_directive by assumption.
   unfold p_rule, body_pre, render_head. destruct (negb (ht =? 0)) eqn:Ech; cbn [orb].
@@ -386,39 +430,34 @@ Proof.
     change s_head_sep_choice with ([59] ++ []).
     rewrite (l_names0 59 [] t_rbrace) by (first [side | (destruct b as [[|? ?]| |]; side)]).
     tk_ok t_rbrace s_choice_close. rewrite app_nil_l.
-    rewrite (rule_tail true (map nu h) s_if) by (now left). reflexivity.
+    rewrite (rule_tail true (map nu h) s_if) by (first [now left | exact Hpl]). reflexivity.
   - destruct h as [|x h]; cbn [is_nil negb].
     + (* no head *)
       tk_no t_lbrace s_if_nohead. tk_ok t_if s_if_nohead.
-      pose proof (rule_tail_nohead b (s_nl ++ rest)) as E. cbn [map]. exact E.
+      pose proof (rule_tail_nohead b (s_nl ++ rest) Hpl) as E. cbn [map]. exact E.
     + rewrite app_nil_l, app_nil_r.
       assert (Hx : 0 <= x) by (inversion Hh; assumption).
-      assert (E1 : forall s X, is_name_start (hd 0 s) = false -> s <> [] -> tok s (sep_list (name_of nm) s_head_sep_disj (x :: h) ++ X) = None).
-      { intros s X H1 H2. destruct h as [|y r]; [cbn [sep_list] | rewrite sep_list_cons, <- !app_assoc]; now apply c_name. }
-      rewrite !E1 by (reflexivity || discriminate). unfold bnd.
+      assert (E1 : forall s X, closer s -> tok s (sep_list (name_of nm) s_head_sep_disj (x :: h) ++ X) = None).
+      { intros s X H1. destruct h as [|y r]; [cbn [sep_list] | rewrite sep_list_cons, <- !app_assoc]; now apply c_name. }
+      rewrite !E1 by (repeat split; discriminate). unfold bnd.
       change s_head_sep_disj with ([124] ++ []).
       assert (E2 : p_list1 p_name [124] (sep_list (name_of nm) ([124] ++ []) (x :: h) ++ render_body nm s_if b ++ s_dot ++ s_nl ++ rest)
                    = Some (map nu (x :: h), render_body nm s_if b ++ s_dot ++ s_nl ++ rest)).
-      { apply (p_list1_spec p_name (name_of nm) nu [124] [] nic); try discriminate; try reflexivity.
-        - intros z. destruct (good_name_inv _ (lit_name_good nm z Hnm)) as (c0 & a0 & E0 & _).
-          unfold name_of in *. destruct (lookup z nm) eqn:EL.
-          + pose proof (Hnm z l EL) as G. destruct l; [discriminate G | discriminate].
-          + discriminate.
-        - intros z Hz l Hl. apply e_name; [|assumption]. unfold nonneg in Hh. rewrite Forall_forall in Hh. now apply Hh.
-        - destruct b as [[|? ?]| |]; reflexivity.
+      { apply l_names1; try assumption; try reflexivity; try discriminate; try (now left).
+        - destruct b as [[|? ?]| |]; split; reflexivity.
         - destruct b as [[|? ?]| |]; cbn [render_body pre_list app]; rewrite <- ?app_assoc; now apply tok_none. }
-      unfold t_bar. rewrite E2. rewrite (rule_tail false (map nu (x :: h)) s_if) by (now left). reflexivity.
+      unfold t_bar. rewrite E2. rewrite (rule_tail false (map nu (x :: h)) s_if) by (first [now left | exact Hpl]). reflexivity.
 Qed.
 
 (* ---------- every directive ---------- *)
 Definition starts_ok (rest : list Z) : Prop := tok t_lbrack rest = None.
 
-Lemma p_stmt_dir d rest : dir_ok d -> starts_ok rest ->
+Lemma p_stmt_dir d rest : dir_ok d -> dir_plain d -> starts_ok rest ->
   p_stmt (render_dir nm d ++ rest) = Some (map_stmt nu (stmt_of_dir d), s_nl ++ rest).
 Proof.
-  intros Hd Hr. destruct d; simpl in Hd.
-  - now apply d_rule.
-  - apply d_min.
+  intros Hd Hpl Hr. destruct d; simpl in Hd.
+  - apply d_rule; [assumption | now apply (dir_plain_rule ht head)].
+  - apply d_min. now apply (dir_plain_min l p).
   - now apply d_project.
   - now apply d_show.
   - destruct Hd. now apply d_external.
@@ -436,8 +475,9 @@ Proof.
   - destruct head as [|x h]; cbn [is_nil negb].
     + eexists; eexists; split; [reflexivity | repeat split; discriminate].
     + inversion Hd; subst.
-      destruct (good_name_hd _ (name_of_good nm x Hnm H1)) as (c & a & E & Hc).
-      assert (Hc3 : is_ws c = false /\ c <> 37 /\ c <> 91) by (unfold is_name_start, is_lower, is_ws in *; lia).
+      destruct (name_hd x H1) as (c & a & E & Hc).
+      assert (Hc3 : is_ws c = false /\ c <> 37 /\ c <> 91).
+      { destruct Hc as [Hc| ->]; [unfold is_name_start, is_lower, is_ws in *; lia | repeat split; discriminate]. }
       rewrite app_nil_l. destruct h; [cbn [sep_list] | rewrite sep_list_cons]; rewrite E; cbn [app];
         exists c; eexists; (split; [reflexivity | exact Hc3]).
 Qed.
@@ -449,19 +489,34 @@ Proof.
   rewrite E. apply tok_none_hd; [assumption | congruence].
 Qed.
 
-Lemma p_stmts_dirs ds : Forall dir_ok ds -> forall n, (length ds < n)%nat ->
+Lemma p_stmts_dirs ds : Forall dir_ok ds -> Forall dir_plain ds -> forall n, (length ds < n)%nat ->
   p_stmts n (render_dirs nm ds) = Some (map (map_stmt nu) (map stmt_of_dir ds)).
 Proof.
-  induction ds as [|d ds IH]; intros H n Hn.
+  induction ds as [|d ds IH]; intros H Hp n Hn.
   - destruct n; [lia | reflexivity].
-  - inversion H; subst. destruct n as [|n]; [simpl in Hn; lia|].
+  - inversion H; subst. inversion Hp; subst. destruct n as [|n]; [simpl in Hn; lia|].
     cbn [render_dirs flat_map p_stmts].
     destruct (render_dir_hd d (flat_map (render_dir nm) ds) H2) as (c & r & E & Hws & Hpc & _).
     rewrite E. cbn [skipws]. rewrite Hws. destruct (Z.eqb_spec c 37); [contradiction|].
     rewrite <- E. fold (render_dirs nm ds).
-    rewrite (p_stmt_dir d (render_dirs nm ds) H2 (render_dirs_starts ds H3)).
+    rewrite (p_stmt_dir d (render_dirs nm ds) H2 H4 (render_dirs_starts ds H3)).
     assert (E2 : p_stmts n (s_nl ++ render_dirs nm ds) = p_stmts n (render_dirs nm ds)).
     { destruct n; reflexivity. }
-    rewrite E2, IH; [reflexivity | assumption | simpl in Hn; lia].
+    rewrite E2, IH; [reflexivity | assumption | assumption | simpl in Hn; lia].
 Qed.
 End Elems.
+
+(* ---------- a theory atom in front of "." : a fact whose head is that atom ---------- *)
+Lemma p_stmt_fact p rest : pok p ->
+  p_stmt (show p ++ s_dot ++ s_nl ++ rest) = Some (SRule false [p] (BNormal []), s_nl ++ rest).
+Proof.
+  intros Hp.
+  pose (nm := [(1, show p)] : names_t). pose (nu := fun a : Z => if a =? 1 then p else PN (s_xpre ++ print_nat a)).
+  assert (Hnu : forall a, 0 <= a -> pok (nu a) /\ name_of nm a = show (nu a)).
+  { intros a Ha. unfold nu, nm, name_of. cbn [lookup]. destruct (a =? 1); [split; [exact Hp | reflexivity]|].
+    split; [now apply xname_good | reflexivity]. }
+  pose proof (d_rule nm nu Hnu 0 [1] (WNormal []) rest ltac:(repeat constructor; lia) I) as E.
+  cbn [render_dir render_head render_body body_pre pre_list sep_list is_nil negb orb Z.eqb app stmt_of_dir map_stmt map body_of map_body] in E.
+  unfold name_of, nm in E. cbn [lookup Z.eqb Pos.eqb] in E. rewrite app_nil_r in E. rewrite <- !app_assoc in E.
+  unfold nu in E. cbn [Z.eqb Pos.eqb] in E. exact E.
+Qed.
